@@ -9,14 +9,13 @@ import GeffProps.C20Links
 and `create_empty_geff`, statement by statement, as Lean `do`-blocks over the primitives of
 `GeffModel/PyDoMock.lean` (defined from the types of the hand-written model `GeffModel/MockData.lean`).
 
-What is proved here **for all arguments** about the generated code: the forwarding layer
-(`create_mock_geff` = inner generator on the same thirteen arguments + one write of the returned geff
-into a fresh store; the four wrappers = `create_mock_geff` on the model's parameter records), the
-nested `_add_axis`, the time column, the dtype-name list.  What is NOT proved in general (see
-`C20Gen_dummy_is_model_partial`): that the body of `create_dummy_in_mem_geff` as written equals the
-hand-written model for every parameter record — it is proved for a pinned family by kernel evaluation,
-evaluated by the driver on every correspondence case (`gen_agrees`), and every C20 theorem is
-transported to the generated code at each parameter record where the two agree.
+T24 emits every top-level `if` paragraph of `create_dummy_in_mem_geff` as a definition of its own and the
+function as the chain of these paragraphs.  Proved here **for all arguments**: the generated
+`create_dummy_in_mem_geff` IS the hand-written model (`C20Gen_dummy_is_model`, composed from one equality
+per paragraph, the three generated `for` loops characterised by one-step specifications + induction), the
+generated `create_mock_geff` and the four wrappers ARE the model's (`C20Gen_mock_is_model`,
+`C20Gen_wrappers_are_model`), hence every theorem of `GeffProps/C20.lean` and `GeffProps/C20Links.lean`
+holds of the code as it is written now (`C20Gen_params`, `C20Gen_store_valid` — no agreement hypothesis).
 
 Property theorems only; helper lemmas in `GeffProofs/MockDataGen.lean`. -/
 namespace GeffProps.C20Gen
@@ -84,17 +83,28 @@ theorem C20Gen_wrappers (ok : Bool) (n m : Nat) (d : Bool) :
                    numNodes := 0, numEdges := 0, t := false, z := false, y := false, x := false } :=
   ⟨simple2d_eq ok n m d, simple3d_eq ok n m d, simpleTemporal_eq ok n m d, empty_eq ok d⟩
 
-/-! ## the body of `create_dummy_in_mem_geff`
+/-! ## the body of `create_dummy_in_mem_geff` -/
 
-FULL STATEMENT (not proved):
-  `theorem C20Gen_dummy_is_model (ok : Bool) (p : Params) : genDummy ok p = createDummyInMemGeff ok p`
-What is missing: the characterisation of the three generated `for` loops (extra node properties,
-extra edge properties, var-length cubes) by one-step specifications and of the chain of join points
-the `do`-elaborator produces for the ten `if`s; the pieces that do not involve the loops are proved
-above (`C20Gen_add_axis_is_model`, `C20Gen_time_column`, `C20Gen_dtype_names`).  Proved instead:
-the equality on a pinned family by kernel evaluation (below), and the transport of every C20 theorem
-to the generated code at each parameter record where the equality holds; the driver evaluates the
-equality on every correspondence case of every run (`gen_agrees`, a disagreement is a broken tie). -/
+/-- **`create_dummy_in_mem_geff` as written = the model**, for EVERY parameter record (all dtype names,
+sizes, flags, extra-property arguments — `None`, not a dict, non-string keys, unsupported dtype names,
+arrays of the wrong length included — and both states of defect D15): same geff, same exception. -/
+theorem C20Gen_dummy_is_model (ok : Bool) (p : Params) : genDummy ok p = createDummyInMemGeff ok p :=
+  dummy_eq ok p
+
+/-- **`create_mock_geff` as written = the model's**, the store written once from the returned geff -/
+theorem C20Gen_mock_is_model (ok : Bool) (p : Params) : genMock ok p = embed (createMockGeff ok p) :=
+  genMock_of_genDummy ok p (dummy_eq ok p)
+
+/-- **the four wrappers as written = the model's wrappers** -/
+theorem C20Gen_wrappers_are_model (ok : Bool) (n m : Nat) (d : Bool) :
+    Gen.MockData.createSimple2dGeff ok n m d = embed (createSimple2dGeff ok n m d) ∧
+    Gen.MockData.createSimple3dGeff ok n m d = embed (createSimple3dGeff ok n m d) ∧
+    Gen.MockData.createSimpleTemporalGeff ok n m d = embed (createSimpleTemporalGeff ok n m d) ∧
+    Gen.MockData.createEmptyGeff ok d = embed (createEmptyGeff ok d) :=
+  ⟨(simple2d_eq ok n m d).trans (C20Gen_mock_is_model ok _), (simple3d_eq ok n m d).trans (C20Gen_mock_is_model ok _),
+   (simpleTemporal_eq ok n m d).trans (C20Gen_mock_is_model ok _), (empty_eq ok d).trans (C20Gen_mock_is_model ok _)⟩
+
+/-! the pinned family (kept as kernel-evaluated instances of `C20Gen_dummy_is_model`) -/
 
 /-- every subset of {t,z,y,x} × include_varlength × include_missing × directed, D15 repaired or not,
 on a graph with nodes, a generated and a caller-supplied extra node property and a generated extra
@@ -105,7 +115,7 @@ def family (t z y x vl ms d : Bool) : Params :=
     extraNode := .dict [(some "label", .auto "str"), (some "score", .arr "float64" 3 0)],
     extraEdge := .dict [(some "w", .auto "int8")] }
 
-theorem C20Gen_dummy_is_model_partial :
+theorem C20Gen_dummy_is_model_family :
     (∀ ok t z y x vl ms d, genDummy ok (family t z y x vl ms d) = createDummyInMemGeff ok (family t z y x vl ms d)) ∧
     -- the empty graph, with and without the var-length property (the D15 boundary)
     (∀ ok vl ms d, genDummy ok { family true true true true vl ms d with numNodes := 0, extraNode := .none } =
@@ -119,12 +129,12 @@ theorem C20Gen_dummy_is_model_partial :
         createDummyInMemGeff ok { family true false true true false false false with extraEdge := x } = .valueError) := by
   refine ⟨by decide +kernel, by decide +kernel, by decide +kernel⟩
 
-/-- **transport**: at every parameter record where the inner generator as written agrees with the
-model, every clause of C20 holds of the generated code — exact node count, id dtype, directedness,
+/-- **C20 on the generated code** (no agreement hypothesis): every clause of C20 holds of
+`create_dummy_in_mem_geff` as written — exact node count, id dtype, directedness,
 `min(requested, possible)` valid edges without repetition, exactly the requested axes and extra
 properties with the requested dtypes, the var-length and the sparse property iff requested, metadata
 describing exactly these properties (`C20_params`, `C20_lengths`, `C20_varlength_iff`). -/
-theorem C20Gen_params_transport (ok : Bool) (p : Params) (hagree : genDummy ok p = createDummyInMemGeff ok p)
+theorem C20Gen_params (ok : Bool) (p : Params)
     (g : Geff) (h : genDummy ok p = .ok g) (hn : (nodeNames p).Nodup) (he : (edgeNames p).Nodup) :
     g.numNodes = p.numNodes ∧ g.idDtype = npName p.idDtype ∧ g.directed = p.directed ∧
     (∃ es, g.edges = es.map cast ∧ EdgesSpec p.directed p.numNodes p.numEdges es) ∧
@@ -134,16 +144,16 @@ theorem C20Gen_params_transport (ok : Bool) (p : Params) (hagree : genDummy ok p
     (p.ms = true → ("sparse_prop", sparseProp p.numNodes) ∈ g.nodeProps ∧
                    ("sparse_prop", sparseProp g.edges.length) ∈ g.edgeProps) ∧
     Describes g.nodeMeta g.nodeProps ∧ Describes g.edgeMeta g.edgeProps := by
-  rw [hagree] at h
+  rw [C20Gen_dummy_is_model] at h
   obtain ⟨h1, h2, h3, h4, h5, _, _, h8, h9⟩ := C20_params ok p g h hn he
   obtain ⟨l1, l2⟩ := C20_lengths ok p g h
   exact ⟨h1, h2, h3, h4, h5, l1, l2, C20_varlength_iff ok p g h, (C20_sparse_iff ok p g h).2.2, h8, h9⟩
 
-/-- **transport of validity (C20 ← C01 / C04 / C12 via `C20Links`)**: where the inner generator as
-written agrees with the model, the store `create_mock_geff` as written returns has been written once,
+/-- **validity of what the generated code returns (C20 ← C01 / C04 / C12 via `C20Links`)**, no agreement
+hypothesis: the store `create_mock_geff` as written returns has been written once,
 from the returned geff, and for every numpy realisation of that geff C01's writer/reader model round-trips
 it, the written store is C04-conformant, and the ids/edges pass C12's graph validation. -/
-theorem C20Gen_store_valid_transport (ok : Bool) (p : Params) (hagree : genDummy ok p = createDummyInMemGeff ok p)
+theorem C20Gen_store_valid (ok : Bool) (p : Params)
     (store : MemStore) (g : Geff) (h : genMock ok p = .ok (store, g))
     (hn : (nodeNames p).Nodup) (he : (edgeNames p).Nodup)
     (hdt : npName p.timeDtype ≠ "str" ∧ npName p.posDtype ≠ "str")
@@ -157,7 +167,7 @@ theorem C20Gen_store_valid_transport (ok : Bool) (p : Params) (hagree : genDummy
       GeffProps.C04.Conformant (Geff.Bridge.toTarget s')) ∧
     (∀ d other, Geff.Validate.validateData { graph := true } d
       (GeffProps.C12.graphResult p.directed (Geff.Link.intIds (List.range g.numNodes)) g.edges other) = .ok) := by
-  rw [genMock_of_genDummy ok p hagree] at h
+  rw [C20Gen_mock_is_model] at h
   cases hm : createMockGeff ok p with
   | valueError => rw [hm] at h; simp [embed] at h
   | other e => rw [hm] at h; simp [embed] at h
